@@ -82,7 +82,7 @@ func (s c08Session) WriteState(http.ResponseWriter, authboss.ClientState, []auth
 	return nil
 }
 
-var c08Mounts = []string{"", "/auth", "/a/b"}
+var c08Mounts = []string{"", "/auth", "/a/b", "/", "/auth/"} // the last two: site-root mount, trailing slash (the library joins with path.Join)
 
 type c08Probe struct {
 	ran     bool
@@ -259,8 +259,8 @@ func c08Run(c c08Case) *Violation {
 	if err != nil {
 		return violation("C08", "redirect-unparsable", "redirect location %q does not parse: %v", loc, err)
 	}
-	if lu.IsAbs() || lu.Host != "" || lu.Path != row.Mount+"/login" {
-		return violation("C08", "redirect-not-login", "redirect goes to %q, want the login page %q", loc, row.Mount+"/login")
+	if loginPage := path.Clean(row.Mount + "/login"); lu.IsAbs() || lu.Host != "" || lu.Path != loginPage {
+		return violation("C08", "redirect-not-login", "redirect goes to %q, want the login page %q", loc, loginPage)
 	}
 	redirs, ok := lu.Query()[authboss.FormValueRedirect]
 	if !ok || len(redirs) != 1 {
